@@ -44,6 +44,17 @@ def gen_program(rng):
     main_calls = [(rng.randint(0, k - 1), rng.randint(0, 3)) for _ in range(rng.randint(1, 4))]
     main_pos = rng.randint(0, k)
     src = ['val exit = 0;', 'var g;', 'var t;']
+    # procedure names of every length: the trace label is '<name>+<offset>' whatever its width
+    style = rng.choice(['short', 'short', 'mid', 'long', 'mixed'])
+
+    def mkname(i):
+        st = style if style != 'mixed' else rng.choice(['short', 'mid', 'long'])
+        if st == 'short':
+            return 'p%d' % i
+        n = rng.randint(8, 15) if st == 'mid' else rng.randint(16, 48)
+        stem = ''.join(rng.choice('abcdefghijklmnopqrstuvwxyz_ABCXYZ0123456789') for _ in range(n))
+        return 'q%d_%s' % (i, stem)
+    N = [mkname(i) for i in range(k)]
 
     def body_text(i):
         out = []
@@ -51,9 +62,9 @@ def gen_program(rng):
             if st[0] == 'add':
                 out.append('g := g + %d' % st[1])
             elif st[0] == 'call':
-                out.append('p%d(%d)' % (st[1], st[2]) if kinds[st[1]] == 'proc' else 't := p%d(%d)' % (st[1], st[2]))
+                out.append('%s(%d)' % (N[st[1]], st[2]) if kinds[st[1]] == 'proc' else 't := %s(%d)' % (N[st[1]], st[2]))
             elif st[0] == 'rec':
-                c = 'p%d(n - 1)' % i if kinds[i] == 'proc' else 't := p%d(n - 1)' % i
+                c = '%s(n - 1)' % N[i] if kinds[i] == 'proc' else 't := %s(n - 1)' % N[i]
                 filler = '; '.join(['t := t + 1'] * (st[1] if len(st) > 1 else 0))
                 out.append('if n = 0 then skip else { %s }' % ('; '.join(x for x in (filler, c) if x)))
             elif st[0] == 'pad':
@@ -65,15 +76,15 @@ def gen_program(rng):
         return '{ ' + '; '.join(out) + ' }'
     decls = []
     for i in order:
-        decls.append('%s p%d(val n) is %s' % (kinds[i], i, body_text(i)))
-    mb = ['g := 0', 't := 0'] + [('p%d(%d)' % (j, a) if kinds[j] == 'proc' else 't := p%d(%d)' % (j, a)) for j, a in main_calls] + ['exit(g - (g - 7))']
+        decls.append('%s %s(val n) is %s' % (kinds[i], N[i], body_text(i)))
+    mb = ['g := 0', 't := 0'] + [('%s(%d)' % (N[j], a) if kinds[j] == 'proc' else 't := %s(%d)' % (N[j], a)) for j, a in main_calls] + ['exit(g - (g - 7))']
     decls.insert(main_pos, 'proc main() is { ' + '; '.join(mb) + ' }')
     src += decls
     # reference call sequence
     seq = ['main']
 
     def run(i, n, depth=0):
-        seq.append('p%d' % i)
+        seq.append(N[i])
         if len(seq) > 5000 or depth > 200:
             raise OverflowError
         for st in bodies[i]:
@@ -86,8 +97,7 @@ def gen_program(rng):
             run(j, a)
     except OverflowError:
         return None
-    names = ['main' if x == 'M' else x for x in []]
-    return ('\n'.join(src) + '\n').encode(), seq, ['p%d' % i for i in range(k)] + ['main']
+    return ('\n'.join(src) + '\n').encode(), seq, N + ['main']
 
 
 def prog_from_listing(lines):
